@@ -158,7 +158,14 @@ def run(ctx):
     for l0 in range(13):
         conds.append(xh.Cond(f"NestedReuseTOML independent of reuse_tomls order (root shape #{l0})", "C04.py", "_order", {"levels": [l0, None, None], "own_n": 2 if tier == "quick" else 4, "perms": [1, 2, 5] if tier == "quick" else [1, 2, 3, 4, 5]}, timeout=tmo, twin="_order_reach"))
 
+    for r, sp in enumerate(["/proj", ".", "proj", "../proj", "./proj/../proj"]):
+        if r == 0:
+            continue
+        conds.append(xh.Cond(f"NestedReuseTOML independent of the spelling of the root ({sp!r} vs absolute), nested directory names incl. ones sorting before '.'", "C04.py", "_spell", {"r": r}, timeout=tmo, twin="_spell_reach"))
+
     def confirm(c, ex):
+        if c.func == "_spell":
+            return f"root-spelling:{ex['root']}:{ex['dir']}", f"root spelled {ex['root']!r}, nested directory {ex['dir']!r}, levels {ex['levels']}: {ex['spelled_root']} instead of {ex['absolute_root']}", {"harness": "C04.py::_spell", "explain": ex}
         return f"{c.func}:{ex.get('file_order') or ex.get('order')}", f"{c.func}: identity order gives {ex['identity']}, permuted order gives {ex['permuted']} ({ {k: v for k, v in ex.items() if k not in ('identity', 'permuted')} })", {"harness": c.func, "explain": ex}
 
     xh.settle(ctx, conds, confirm)
@@ -171,11 +178,12 @@ def run(ctx):
     ctx.bounds = {
         "hash seed": f"{len(seeds)} PYTHONHASHSEED values for the pattern text; pairwise commutation decided for lines of any length",
         "file order": "3 files x {none, MIT, Foo} (+ read error on one), all 6 orders, 3 listing orders of 3 LICENSES entries",
+        "root spelling": "root given as '.', 'proj', '../proj', './proj/../proj' vs absolute; nested directory named a, +a, (a), -a, #a, _a, ~a; 13 x 13 table shapes",
         "reuse_tomls order": "3 nested REUSE.toml files, each of 13 shapes, own info in 2 kinds, 3 generating permutations" + (" (thorough: 4 kinds, all permutations)" if tier == "quick" else ""),
     }
     ctx.outside = [
         "real process scheduling (mp.Pool), pickling and the per-worker dep5 re-parse",
-        "real readdir order, current working directory and root spelling (OS level: symbolic execution has no handle on them)",
+        "real readdir order and the current working directory (OS level); root spelling is covered for the REUSE.toml hierarchy only",
     ]
     ctx.assumptions = ["a set-assembled pattern can only vary by the order of its groups"]
     return {"level": "model_checking", "exhaustive": False, "trusted_base": ["z3 regex solver", "vf/re2z3.py", "CrossHair 0.0.110"]}
